@@ -1,4 +1,4 @@
 From Coq Require Import ExtrOcamlBasic ZArith List.
-From RtoscV Require Import Save.TopoModel Save.SaveModel Save.TopoTree Save.DeclModel Save.TreeApp Ports.NamesModel.
+From RtoscV Require Import Save.TopoModel Save.SaveModel Save.TopoTree Save.DeclModel Save.TreeApp Save.LinesModel Save.CondModel Ports.NamesModel.
 Extraction "model.ml" Z.add Z.mul Z.opp initial send save_lines load_file dispatch_printed load_order exists_ live val_at port_at apropos_of_tree declared_b
-  meta_value key_enabled_by app_of_tree sports_of tree_apply_line walk_tree nohash len_id names_ok apply_line.
+  meta_value key_enabled_by app_of_tree sports_of tree_apply_line walk_tree switches_ok nohash len_id names_ok apply_line print_line good_line_b opts_default wf_app_b full_conditions_b ranked_b pushes defaults_stable_b msg_ok_b.
